@@ -1,0 +1,9 @@
+//go:build verif
+
+package filesystem
+
+// Verification hook (add-only, compiled only with -tags verif).
+
+// VerifCacheKeyPrefix is cacheKeyPrefix: the prefix of the cache keys under which keystore v1 keeps the
+// list of current + rotated file names of a key file.
+func VerifCacheKeyPrefix() string { return cacheKeyPrefix }
